@@ -741,3 +741,38 @@ def secret_width(ctx):
                         'secrets below 2**248 get a short private_byte: HDKey(int).wif_private() is a truncated string that cannot be imported')
         else:
             ctx.unsure('%s: form of %s not recognised: %s' % (q, name, show(got)[:100]))
+
+
+@PROP.obligation('C12.bin-suffix', canaries=[
+    mut.replace_expr('keys', 'Key.__init__', "len(import_key) in [33, 65, 129] and import_key[-1:] == b'\\x01'", "import_key[-1:] == b'\\x01'", 'trailing 01 stripped from a bare 32-byte secret'),
+])
+def bin_suffix(ctx):
+    """Key.__init__, binary private-key branch (`bin_compressed`, also used for the 32 bytes a BIP38 decryption returns): evaluated on a bare
+    32-byte secret and on secret . 01 with the secret symbolic. The key bytes are secret[0:32] in both cases and no decision reads a byte
+    of the secret: the compression suffix is recognised by the LENGTH of the input."""
+    fn = ctx.repo.func('keys:Key.__init__')
+    blks = [n for n in ast.walk(fn) if isinstance(n, ast.If) and "self.key_format == 'bin_compressed'" == norm(n.test)]
+    if len(blks) != 1:
+        ctx.undecided('Key.__init__: bin_compressed branch not found')
+    for lay, label in (([('secret', 32)], 'a bare 32-byte secret'), ([('secret', 32), b'\x01'], 'secret . 01')):
+        it = Interp(ctx.repo, 'keys', hooks=dict(LAYOUT_HOOKS), self_cls='keys:Key')
+        K = ('var', 'import_key')
+        st = State(env={'self': S(SELF), 'import_key': S(K, 'bytes')})
+        it.frames.append([])
+        try:
+            end = it.exec_block(blks[0].body, st)
+        except AnalysisError as e:
+            ctx.undecided('bin_compressed branch not evaluable: %s' % str(e)[:100])
+        if end is None:
+            ctx.undecided('bin_compressed branch always raises')
+        env = {K: seg.seg(*lay), ('len', K): sum(p[1] if isinstance(p, tuple) else len(p) for p in lay)}
+        try:
+            kb = seg.seg_eval(term(end.env.get('key_byte')), env)
+        except seg.SegUnknown as e:
+            ctx.undecided('bin_compressed branch not evaluable on %s: %s' % (label, e))
+        ctx.saw('binary import of %s: key bytes = %s' % (label, seg.fmt(kb) if seg.is_seg(kb) else kb))
+        if isinstance(kb, seg.Dep):
+            ctx.violate('keys:Key.__init__', 'binary import of %s: what is taken as the key depends on payload bytes of field %s' % (label, ','.join(kb.fields)), blks[0],
+                        'a BIP38 key (or raw 32-byte key) whose secret ends in 01 imports as another key with a 31-byte secret: 1 in 256 keys')
+            continue
+        ctx.require(kb == seg.seg(('secret', 32)), 'keys:Key.__init__', 'binary import of %s takes %s as the key, expected secret[0:32]' % (label, seg.fmt(kb) if seg.is_seg(kb) else kb), blks[0])
